@@ -194,6 +194,40 @@ theorem no_ghost (e : Env) (s : Scr) (shards : List Shard) (R : List Nat) (t : T
     obtain ⟨v, hv, hgv⟩ := hg'
     exact ⟨v, hv, g, hgv, rfl⟩
 
+/-! ## re-sent image lines do not pile up (terminals other than konsole) -/
+
+/-- The `blend` decision of `UrwidImage.__init__` read off the live code for six terminal identities:
+blending (no delete-at-cursor before an image line) exactly on konsole — the `e.konsole` the model's
+`redraw`/`emitSeg` use. -/
+theorem generated_blend : ∀ nb ∈ Generated.blendTable, nb.2 = (nb.1 == "konsole") := by decide
+
+/-- On every terminal that does not blend (kitty, wezterm, any other terminal speaking the protocol),
+writing an image line — whether or not the same line is already there — leaves exactly one copy
+of its placement: the delete-at-cursor removes the copy it is about to replace. -/
+theorem resend_replaces (t : Term) (s : Seg) (hc : 0 < s.cols) :
+    (emitSeg false t s).imgs.count s.pl = 1 := by
+  rw [emitSeg_imgs]
+  simp only [Bool.false_eq_true, ↓reduceIte, List.count_cons_self]
+  have : (t.imgs.filter fun p => !(p.kittyProto && Term.inRect p s.row s.col)).count s.pl = 0 := by
+    rw [List.count_eq_zero]
+    intro hm
+    have h := (List.mem_filter.1 hm).2
+    have hin : Term.inRect s.pl s.row s.col = true := by
+      simp [Term.inRect, Seg.pl]; omega
+    simp [Seg.pl] at h
+    simp [Seg.pl] at hin
+    simp [h] at hin
+  omega
+
+/-- … whereas with blending a line that is already there is doubled (harmless on konsole only, which
+replaces an image drawn again at the same place and z-index — the reason the library blends there). -/
+theorem resend_stacks_when_blending (t : Term) (s : Seg) (h : s.pl ∈ t.imgs) :
+    2 ≤ (emitSeg true t s).imgs.count s.pl := by
+  rw [emitSeg_imgs]
+  simp only [↓reduceIte, List.count_cons_self]
+  have := List.count_pos_iff.2 h
+  omega
+
 /- `placements_exact` at full strength would be: after each redraw the kitty placements on the terminal are
    exactly the image lines of the canvas just drawn. It is delivered as two halves: `no_ghost` (⊆, full) and
    `placements_exact_partial` (⊇, under the row-diff hypothesis `hrows` and the geometry hypothesis `hno`). -/
